@@ -73,6 +73,11 @@ def gen_case(rng, struct_fields):
     base = rng.choice([0x60000000, 0x70000000, 0x00400000, 0xf5000000]) + 4 * rng.randrange(1000)
     ln = max(0, rng.choice([0, 1, 2, 3, 4, 5, 7, buf - 1, buf, buf + 1, 2 * buf, 2 * buf + rng.randrange(4),
                             3 * buf - rng.randrange(4), 5 * buf + rng.randrange(-3, 4)]))
+    if rng.random() < 0.01:
+        ln = rng.choice([64, 257, 300]) * buf + rng.randrange(4)      # a few transfers of hundreds of commands
+    if rng.random() < 0.03:
+        base = rng.choice([0xffffffff - ln - rng.randrange(8), 0, 1, 0x7fffffff - ln // 2])   # ends of the address space
+        base = max(0, base) & ~3
     c = {"op": op, "buf": buf, "window": rng.choice([1, 1, 2, 3, 8]), "x": rng.randrange(2), "y": rng.randrange(2),
          "p": rng.randrange(18), "addr": base + align, "len": ln, "timeout": 4}
     if op in ("write", "link_write"):
@@ -152,6 +157,9 @@ def field_size(pack, cnt):
     return PERL_SIZE[pack] * cnt
 
 
+_HANGS = [0]
+
+
 def run_impl(case, table, env=None):
     from rig.machine_control import scp_connection as sc
     script = case["script"]
@@ -193,6 +201,9 @@ def run_impl(case, table, env=None):
         mc._window_size = case["window"]
         x, y, p = case["x"], case["y"], case["p"]
         op = case["op"]
+        from harness import common
+        limit = common.cpu_limit(20 if _HANGS[0] < 4 else 2)     # a transfer takes milliseconds
+        limit.__enter__()
         try:
             if op == "sver":
                 # an application core is asked for its software version (its SARK may report another
@@ -289,6 +300,11 @@ def run_impl(case, table, env=None):
             res["error"] = "ValueError"
         except struct.error:
             res["error"] = "struct.error"
+        except common.ImplHang as e:
+            _HANGS[0] += 1
+            res["error"] = "DidNotReturn (%s)" % e
+        finally:
+            limit.__exit__()
     # distinct data commands in first-transmission order (seq identifies a command)
     seen, cmds = set(), []
     for e in net.log[log_start:]:
